@@ -22,10 +22,12 @@ import (
 	"testing"
 	"time"
 
+	"github.com/icon-project/goloop/chain/base"
 	"github.com/icon-project/goloop/common"
 	"github.com/icon-project/goloop/common/crypto"
 	"github.com/icon-project/goloop/common/db"
 	"github.com/icon-project/goloop/common/errors"
+	"github.com/icon-project/goloop/common/log"
 	"github.com/icon-project/goloop/common/merkle"
 	"github.com/icon-project/goloop/common/trie"
 	"github.com/icon-project/goloop/module"
@@ -53,13 +55,68 @@ const (
 type c10Tx struct {
 	Type   string `json:"type"`
 	Run    int64  `json:"run"`
-	Idx    int    `json:"idx"`    // position in the block
-	Script []int  `json:"script"` // outcome of attempt 0,1,2,...; beyond the end: ok
+	Idx     int    `json:"idx"`              // position in the block
+	Script  []int  `json:"script"`           // outcome of Execute attempt 0,1,2,...; beyond the end: ok
+	HScript []int  `json:"hscript,omitempty"` // outcome of GetHandler call 0,1,2,...
+	PFail   bool   `json:"pfail,omitempty"`   // Prepare fails (concurrent dispatcher only)
+	Patch   bool   `json:"patch,omitempty"`   // member of the patch list
 }
 
 type c10State struct {
-	attempts []int // handler executions so far, per transaction
-	last     []int // outcome of the last attempt, per transaction
+	attempts []int  // handler executions so far, per transaction
+	hcalls   []int  // GetHandler calls so far, per transaction
+	ecalls   []int  // Platform.OnTransactionEnd calls so far, per transaction
+	bad      []bool // the last thing that happened to the transaction was a failure
+	last     []int  // outcome of the last Execute attempt, per transaction
+}
+
+func c10Err(out int, what string, idx, n int) error {
+	switch out {
+	case c10Fail:
+		return errors.ExecutionFailError.Errorf("scripted retryable failure in %s tx=%d call=%d", what, idx, n)
+	case c10Rerun:
+		return errors.CriticalRerunError.Errorf("scripted rerun request in %s tx=%d call=%d", what, idx, n)
+	case c10Invalid:
+		return errors.InvalidStateError.Errorf("scripted non-retryable failure in %s tx=%d call=%d", what, idx, n)
+	}
+	return nil
+}
+
+// c10Platform wraps the transition's platform: OnTransactionEnd fails per
+// script (the receipt identifies its transaction by stepUsed = 100+idx), and
+// OnExecutionBegin can switch the block into skip-transaction mode (which makes
+// executeTxs take the sequential path whatever the concurrency level is).
+type c10Platform struct {
+	base.Platform
+	st   *c10State
+	end  map[int][]int
+	skip bool
+}
+
+func (p *c10Platform) OnExecutionBegin(wc state.WorldContext, logger log.Logger) error {
+	if p.skip {
+		wc.EnableSkipTransaction()
+	}
+	return p.Platform.OnExecutionBegin(wc, logger)
+}
+
+func (p *c10Platform) OnTransactionEnd(wc state.WorldContext, logger log.Logger, rct txresult.Receipt) error {
+	idx := int(rct.StepUsed().Int64()) - 100
+	if idx >= 0 && idx < len(p.st.ecalls) {
+		c10Mu.Lock()
+		n := p.st.ecalls[idx]
+		p.st.ecalls[idx]++
+		out := c10OK
+		if sc := p.end[idx]; n < len(sc) {
+			out = sc[n]
+		}
+		p.st.bad[idx] = out != c10OK
+		c10Mu.Unlock()
+		if err := c10Err(out, "OnTransactionEnd", idx, n); err != nil {
+			return err
+		}
+	}
+	return p.Platform.OnTransactionEnd(wc, logger, rct)
 }
 
 var (
@@ -92,7 +149,7 @@ func c10NewRun(n int) (int64, *c10State) {
 	c10Mu.Lock()
 	defer c10Mu.Unlock()
 	c10NextRun++
-	st := &c10State{attempts: make([]int, n), last: make([]int, n)}
+	st := &c10State{attempts: make([]int, n), hcalls: make([]int, n), ecalls: make([]int, n), bad: make([]bool, n), last: make([]int, n)}
 	c10Runs[c10NextRun] = st
 	return c10NextRun, st
 }
@@ -111,6 +168,14 @@ var c10Accounts = []*common.Address{
 func (t *c10Tx) account() *common.Address { return c10Accounts[t.Idx%2] }
 
 func (t *c10Tx) Prepare(ctx contract.Context) (state.WorldContext, error) {
+	if t.PFail {
+		c10Mu.Lock()
+		if st := c10Runs[t.Run]; st != nil {
+			st.bad[t.Idx] = true
+		}
+		c10Mu.Unlock()
+		return nil, errors.InvalidStateError.Errorf("scripted failure in Prepare tx=%d", t.Idx)
+	}
 	// transactions 0,2 share one account and 1,3 the other: real lock dependencies
 	lq := []state.LockRequest{{ID: string(t.account().ID()), Lock: state.AccountWriteLock}}
 	return ctx.GetFuture(lq), nil
@@ -130,17 +195,13 @@ func (t *c10Tx) Execute(ctx contract.Context, wcs state.WorldSnapshot, estimate 
 		out = t.Script[n]
 	}
 	st.last[t.Idx] = out
+	st.bad[t.Idx] = out != c10OK
 	c10Mu.Unlock()
 	// touch state first, so that a failing attempt leaves something to roll back
 	as := ctx.GetAccountState(t.account().ID())
 	as.SetBalance(new(big.Int).Add(as.GetBalance(), big.NewInt(int64(1000+t.Idx))))
-	switch out {
-	case c10Fail:
-		return nil, errors.ExecutionFailError.Errorf("scripted retryable failure tx=%d attempt=%d", t.Idx, n)
-	case c10Rerun:
-		return nil, errors.CriticalRerunError.Errorf("scripted rerun request tx=%d attempt=%d", t.Idx, n)
-	case c10Invalid:
-		return nil, errors.InvalidStateError.Errorf("scripted non-retryable failure tx=%d attempt=%d", t.Idx, n)
+	if err := c10Err(out, "Execute", t.Idx, n); err != nil {
+		return nil, err
 	}
 	r := txresult.NewReceipt(ctx.Database(), ctx.Revision(), t.account())
 	// the receipt identifies its transaction: stepUsed = 100+idx
@@ -149,7 +210,12 @@ func (t *c10Tx) Execute(ctx contract.Context, wcs state.WorldSnapshot, estimate 
 }
 
 func (t *c10Tx) Dispose()                       {}
-func (t *c10Tx) Group() module.TransactionGroup { return module.TransactionGroupNormal }
+func (t *c10Tx) Group() module.TransactionGroup {
+	if t.Patch {
+		return module.TransactionGroupPatch
+	}
+	return module.TransactionGroupNormal
+}
 func (t *c10Tx) ID() []byte                     { return crypto.SHA3Sum256(t.Bytes()) }
 func (t *c10Tx) From() module.Address           { return t.account() }
 func (t *c10Tx) Bytes() []byte {
@@ -166,6 +232,25 @@ func (t *c10Tx) ToJSON(version module.JSONVersion) (interface{}, error) {
 func (t *c10Tx) ValidateNetwork(nid int) bool                         { return true }
 func (t *c10Tx) PreValidate(wc state.WorldContext, update bool) error { return nil }
 func (t *c10Tx) GetHandler(cm contract.ContractManager) (transaction.Handler, error) {
+	if len(t.HScript) > 0 {
+		c10Mu.Lock()
+		st := c10Runs[t.Run]
+		out, n := c10OK, 0
+		if st != nil {
+			n = st.hcalls[t.Idx]
+			st.hcalls[t.Idx]++
+			if n < len(t.HScript) {
+				out = t.HScript[n]
+			}
+			if out != c10OK {
+				st.bad[t.Idx] = true
+			}
+		}
+		c10Mu.Unlock()
+		if err := c10Err(out, "GetHandler", t.Idx, n); err != nil {
+			return nil, err
+		}
+	}
 	return t, nil
 }
 func (t *c10Tx) Timestamp() int64   { return 1000 }
@@ -188,38 +273,77 @@ func (t *c10Tx) ClearCache()                          {}
 // ---------------------------------------------------------------------------
 // cases
 
+// c10Kind is one scripted fault: where it is injected and the outcome per call.
 type c10Kind struct {
-	Name   string
-	Script []int
-	// Expect: "error" (the block must fail), "any" (statement allows both)
-	MustFail bool
+	Name     string
+	Site     string // "", "execute", "txend", "handler", "prepare"
+	Script   []int  // Execute outcomes
+	End      []int  // Platform.OnTransactionEnd outcomes
+	Handler  []int  // GetHandler outcomes
+	Prepare  bool   // Prepare fails
+	ConcOnly bool   // site only exists on the concurrent path
+	Core     bool   // member of the reduced set used for level 3 in the quick tier
 }
 
-var c10Kinds = []c10Kind{
-	{Name: "none", Script: nil},
-	{Name: "non-retryable", Script: []int{c10Invalid}, MustFail: true},
-	{Name: "non-retryable-after-one-retry", Script: []int{c10Fail, c10Invalid}, MustFail: true},
-	{Name: "retryable-once-then-ok", Script: []int{c10Fail}},
-	{Name: "rerun-once-then-ok", Script: []int{c10Rerun}},
-	{Name: "retryable-twice-then-ok", Script: []int{c10Fail, c10Rerun}},
-	{Name: "retry-exhausted", Script: []int{c10Fail, c10Fail, c10Fail, c10Fail, c10Fail}, MustFail: true},
-	{Name: "rerun-exhausted", Script: []int{c10Rerun, c10Rerun, c10Rerun, c10Rerun, c10Rerun}, MustFail: true},
-}
+var c10Kinds = func() []c10Kind {
+	five := func(v int) []int { return []int{v, v, v, v, v} }
+	ks := []c10Kind{{Name: "none"}}
+	scripts := []struct {
+		name string
+		sc   []int
+		core bool
+	}{
+		{"non-retryable", []int{c10Invalid}, true},
+		{"non-retryable-after-one-retry", []int{c10Fail, c10Invalid}, false},
+		{"retryable-once-then-ok", []int{c10Fail}, true},
+		{"rerun-once-then-ok", []int{c10Rerun}, false},
+		{"retryable-twice-then-ok", []int{c10Fail, c10Rerun}, false},
+		{"retry-exhausted", five(c10Fail), true},
+		{"rerun-exhausted", five(c10Rerun), false},
+	}
+	for _, x := range scripts { // failures of the handler's Execute (names kept from the first version)
+		ks = append(ks, c10Kind{Name: x.name, Site: "execute", Script: x.sc, Core: x.core})
+	}
+	for _, x := range scripts { // failures of Platform.OnTransactionEnd after a successful Execute
+		ks = append(ks, c10Kind{Name: "txend-" + x.name, Site: "txend", End: x.sc, Core: x.core})
+	}
+	ks = append(ks,
+		c10Kind{Name: "handler-unavailable", Site: "handler", Handler: []int{c10Invalid}, Core: true},
+		c10Kind{Name: "handler-unavailable-on-retry", Site: "handler", Script: []int{c10Fail}, Handler: []int{c10OK, c10Invalid}, Core: true},
+		c10Kind{Name: "prepare-fails", Site: "prepare", Prepare: true, ConcOnly: true, Core: true},
+	)
+	return ks
+}()
 
 type c10Case struct {
 	N     int           `json:"n"`    // block length
 	Pos   int           `json:"pos"`  // position of the scripted failing transaction
 	Kind  int           `json:"kind"` // index into c10Kinds
 	Conc  int           `json:"conc"` // 1 = sequential mode
+	Mode  string        `json:"mode,omitempty"` // "" normal list; "patch": block in the patch list; "skip": skip-transaction mode (sequential path forced)
 	P     int           `json:"p"`
 	Trace explore.Trace `json:"trace,omitempty"`
 	Free  bool          `json:"free,omitempty"` // free-running (native goroutines) instead of explored
 }
 
+func (c c10Case) sequentialPath() bool { return c.Conc <= 1 || c.Mode != "" }
+
+func (c c10Case) modeName() string {
+	switch {
+	case c.Mode == "patch":
+		return "sequential-patch-list"
+	case c.Mode == "skip":
+		return "sequential-skip-mode"
+	case c.Conc > 1:
+		return "concurrent"
+	}
+	return "sequential"
+}
+
 func (c c10Case) String() string {
-	mode := "sequential"
+	mode := c.modeName()
 	if c.Conc > 1 {
-		mode = fmt.Sprintf("concurrent(level=%d)", c.Conc)
+		mode = fmt.Sprintf("%s(level=%d)", mode, c.Conc)
 	}
 	return fmt.Sprintf("block of %d, tx %d scripted %q, %s", c.N, c.Pos, c10Kinds[c.Kind].Name, mode)
 }
@@ -229,37 +353,67 @@ func (c c10Case) build() ([]module.Transaction, *c10State, int64) {
 	run, st := c10NewRun(c.N)
 	txs := make([]module.Transaction, c.N)
 	for i := 0; i < c.N; i++ {
-		t := &c10Tx{Type: "verif-c10", Run: run, Idx: i}
+		t := &c10Tx{Type: "verif-c10", Run: run, Idx: i, Patch: c.Mode == "patch"}
 		if i == c.Pos {
-			t.Script = c10Kinds[c.Kind].Script
+			k := c10Kinds[c.Kind]
+			t.Script, t.HScript, t.PFail = k.Script, k.Handler, k.Prepare
 		}
 		txs[i] = t
 	}
 	return txs, st, run
 }
 
+// opt builds the execution options of one run of the case.
+func (c c10Case) opt(st *c10State) l2Opt {
+	k := c10Kinds[c.Kind]
+	return l2Opt{
+		Patch: c.Mode == "patch",
+		Platform: func(p base.Platform) base.Platform {
+			return &c10Platform{Platform: p, st: st, end: map[int][]int{c.Pos: k.End}, skip: c.Mode == "skip"}
+		},
+	}
+}
+
 func c10Cases(tier string) []c10Case {
 	var out []c10Case
-	maxP := 2
-	for _, conc := range []int{1, 2, 3} {
+	thorough := tier == "thorough"
+	type mode struct {
+		conc int
+		mode string
+	}
+	// sequential path: normal list, patch list, skip-transaction mode (level 2
+	// configured, but executeTxs must take the sequential path);
+	// concurrent path: levels 2 and 3
+	for _, m := range []mode{{1, ""}, {1, "patch"}, {2, "skip"}, {2, ""}, {3, ""}} {
+		explored := m.conc > 1 && m.mode == ""
 		for n := 1; n <= 4; n++ {
-			for k := range c10Kinds {
+			for k, kind := range c10Kinds {
+				if kind.ConcOnly && !explored {
+					continue
+				}
+				if explored && m.conc == 3 && !thorough {
+					// quick: level 3 for blocks up to 3 (all faults) and for blocks of 4
+					// with the core fault set
+					if n == 4 && !(kind.Core || k == 0) {
+						continue
+					}
+				}
 				for pos := 0; pos < n; pos++ {
 					if k == 0 && pos > 0 {
 						continue
 					}
 					p := 0
-					if conc > 1 {
+					if explored {
 						// quick: P<=2 for blocks up to 3, P<=1 for blocks of 4;
 						// thorough: P<=3 for blocks up to 3, P<=2 for blocks of 4
-						p = maxP
-						if tier == "thorough" && n <= 3 {
+						p = 2
+						if thorough && n <= 3 {
 							p = 3
-						} else if tier != "thorough" && n == 4 {
+						} else if !thorough && n == 4 {
 							p = 1
 						}
 					}
-					out = append(out, c10Case{N: n, Pos: pos, Kind: k, Conc: conc, P: p})
+					out = append(out, c10Case{N: n, Pos: pos, Kind: k, Conc: m.conc, Mode: m.mode, P: p})
 				}
 			}
 		}
@@ -277,10 +431,7 @@ type c10Run struct {
 // c10Judge applies the property statement to one finished execution.
 // "" = fine.
 func c10Judge(c c10Case, run *c10Run, panicText string, deadlock, horizon bool) (sig, detail string) {
-	mode := "sequential"
-	if c.Conc > 1 {
-		mode = "concurrent"
-	}
+	mode := c.modeName()
 	kind := c10Kinds[c.Kind].Name
 	switch {
 	case deadlock:
@@ -290,11 +441,13 @@ func c10Judge(c c10Case, run *c10Run, panicText string, deadlock, horizon bool) 
 	}
 	// which transactions ended in failure (last attempt not ok)?
 	var failed []int
-	for i := range run.st.attempts {
-		if run.st.attempts[i] > 0 && run.st.last[i] != c10OK {
+	c10Mu.Lock()
+	for i := range run.st.bad {
+		if run.st.bad[i] {
 			failed = append(failed, i)
 		}
 	}
+	c10Mu.Unlock()
 	o := run.obs
 	if panicText != "" {
 		first := panicText
@@ -371,7 +524,7 @@ func c10Outcome(run *c10Run, panicText string) string {
 // explorer for the concurrent modes.
 func c10Explore(env *l2Env, c c10Case, idx int, deadline time.Time, known map[string]bool) c10Res {
 	res := c10Res{Idx: idx, Outcomes: map[string]int{}}
-	if c.Conc <= 1 {
+	if c.sequentialPath() {
 		run, pt := c10Native(env, c)
 		res.Res.Executions = 1
 		res.Res.Complete = true
@@ -432,7 +585,7 @@ func c10Body(env *l2Env, c c10Case) func(x *explore.Exec) {
 		txs, st, id := c.build()
 		run := &c10Run{obs: &l2Obs{}, st: st, id: id}
 		x.Data = run
-		env.execInto(run.obs, txs, c.Conc)
+		env.execIntoOpt(run.obs, txs, c.Conc, c.opt(st))
 	}
 }
 
@@ -441,7 +594,7 @@ func c10Native(env *l2Env, c c10Case) (*c10Run, string) {
 	// goroutines may outlive doExecute
 	txs, st, id := c.build()
 	run := &c10Run{obs: &l2Obs{}, st: st, id: id}
-	pt := ev.Catch(func() { env.execInto(run.obs, txs, c.Conc) })
+	pt := ev.Catch(func() { env.execIntoOpt(run.obs, txs, c.Conc, c.opt(st)) })
 	if pt != "" {
 		pt += " (in doExecute)"
 	}
@@ -507,7 +660,7 @@ func TestVerifC10(t *testing.T) {
 		}
 	}
 	deadline := started.Add(budget - 3*time.Second)
-	r.Rule("a case = (block length 1..4) x (position of the scripted transaction) x (failure kind: non-retryable at attempt 0 or 1, retryable once/twice then ok with both retryable codes, retry budget exhausted with both codes, none) x (sequential | concurrent level 2 | level 3); concurrent cases are executed through the real transition.doExecute under every interleaving with at most P preemptions (quick: P=2 for blocks up to 3, P=1 for blocks of 4; thorough: P=3 for blocks up to 3, P=2 for blocks of 4); distinct_nontrivial counts cases in which a handler really failed")
+	r.Rule("a case = (block length 1..4) x (position of the scripted transaction) x (fault: none | at the handler's Execute or at Platform.OnTransactionEnd {non-retryable at call 0 or 1, retryable once/twice then ok with both retryable codes, retry budget exhausted with both codes} | GetHandler fails at the first call or on the retry | Prepare fails (concurrent dispatcher)) x (sequential normal list | sequential patch list | skip-transaction mode at level 2 | concurrent level 2 | level 3; quick: level-3 blocks of 4 only with the core faults); concurrent cases are executed through the real transition.doExecute under every interleaving with at most P preemptions (quick: P=2 for blocks up to 3, P=1 for blocks of 4; thorough: P=3 for blocks up to 3, P=2 for blocks of 4); distinct_nontrivial counts cases in which a handler really failed")
 	r.Assume("scripted transaction type (own Handler) instead of contract execution; every transaction write-locks one of two accounts (0,2 and 1,3 share) so workers really wait for each other",
 		"only worldvirtualstate.go and transition_pe.go run on the vsync shim; release operations are not preemptible (data-race-free code)",
 		"the statement allows a block with a retryable failure to fail as a whole; only 'success with a failed/missing transaction', panics, deadlocks and missing callbacks are violations")
@@ -530,7 +683,7 @@ func TestVerifC10(t *testing.T) {
 		defer env.close()
 		r.Eval(1)
 		var sig, detail string
-		if c.Conc <= 1 || c.Free {
+		if c.sequentialPath() || c.Free {
 			run, pt := c10Native(env, c)
 			sig, detail = c10Judge(c, run, pt, false, false)
 		} else {
@@ -568,7 +721,7 @@ func TestVerifC10(t *testing.T) {
 	// cheap cases first (sequential mode, blocks of 1-2) so that a wall-clock cap
 	// never costs their coverage; then the rest, biggest first, for load balance
 	weight := func(c c10Case) int {
-		if c.Conc <= 1 || c.N <= 2 {
+		if c.sequentialPath() || c.N <= 2 {
 			return 1000 - c.Conc*10 - c.N
 		}
 		return c.Conc*10 + c.N
@@ -599,8 +752,8 @@ func TestVerifC10(t *testing.T) {
 			}
 			total.Merge(res.Res)
 			r.Eval(int(res.Res.Executions))
-			mode := "sequential"
-			if c.Conc > 1 {
+			mode := c.modeName()
+			if c.Conc > 1 && c.Mode == "" {
 				mode = fmt.Sprintf("concurrent%d", c.Conc)
 			}
 			key := mode + "/" + c10Kinds[c.Kind].Name
@@ -612,12 +765,12 @@ func TestVerifC10(t *testing.T) {
 			}
 			if c.Kind != 0 {
 				failedCases++
-				r.Nontrivial(fmt.Sprintf("%d/%d/%d/%d", c.N, c.Pos, c.Kind, c.Conc))
+				r.Nontrivial(fmt.Sprintf("%d/%d/%d/%d/%s", c.N, c.Pos, c.Kind, c.Conc, c.Mode))
 			}
 			for _, v := range res.Viol {
 				r.Violation(v.Sig, v.Detail, v.Case)
 			}
-			if sampled < 6 && c.Conc > 1 && c.Kind != 0 && c.N >= 3 && res.Idx%7 == 0 {
+			if sampled < 6 && !c.sequentialPath() && c.Kind != 0 && c.N >= 3 && res.Idx%7 == 0 {
 				sampled++
 				r.Sample(map[string]interface{}{"case": c.String(), "preemption_bound": c.P, "executions": res.Res.Executions,
 					"executions_with_blocked_thread": res.Res.BlockedExecutions, "outcomes": res.Outcomes})
@@ -631,7 +784,7 @@ func TestVerifC10(t *testing.T) {
 	if len(harness) == 0 {
 		env := newL2Env()
 		for _, c := range cases {
-			if c.Conc <= 1 {
+			if c.sequentialPath() {
 				continue
 			}
 			for rep := 0; rep < 3; rep++ {
@@ -675,7 +828,7 @@ func TestVerifC10(t *testing.T) {
 	r.Sanity(total.Executions > int64(len(cases)), "nothing explored")
 	r.Sanity(total.BlockedByKind["cond.Wait"] > 0 || skipped > 0, "no execution blocked in waitCommit")
 	// vacuity: the error path and the success path must both have been seen in both modes
-	for _, m := range []string{"sequential", "concurrent2"} {
+	for _, m := range []string{"sequential", "sequential-patch-list", "sequential-skip-mode", "concurrent2", "concurrent3"} {
 		okSeen := outcomes[m+"/none"]["success"] > 0
 		r.Sanity(okSeen || skipped > 0, "%s: the failure-free block never succeeded", m)
 	}
